@@ -33,6 +33,27 @@ fn type_graph(s: &str, toks: &[tok::Tok]) -> Vec<(String, Vec<String>, Vec<Strin
                 let mut depth = 0i32;
                 let mut sq = 0i32;
                 let (mut direct, mut via) = (vec![], vec![]);
+                // token ranges of nested `{ .. }?` groups (an anonymous record under an Option)
+                let mut opt_groups: Vec<(usize, usize)> = vec![];
+                {
+                    let mut stack = vec![];
+                    for (q, t) in toks.iter().enumerate().skip(j) {
+                        match text(t) {
+                            "{" => stack.push(q),
+                            "}" => {
+                                if let Some(o) = stack.pop() {
+                                    if !stack.is_empty() && toks.get(q + 1).is_some_and(|n| text(n) == "?") {
+                                        opt_groups.push((o, q));
+                                    }
+                                    if stack.is_empty() {
+                                        break;
+                                    }
+                                }
+                            }
+                            _ => {}
+                        }
+                    }
+                }
                 let mut k = j;
                 while k < toks.len() {
                     let t = text(&toks[k]);
@@ -69,7 +90,8 @@ fn type_graph(s: &str, toks: &[tok::Tok]) -> Vec<(String, Vec<String>, Vec<Strin
                                 }
                             }
                             let optional = e < toks.len() && text(&toks[e]) == "?";
-                            if sq > 0 || optional {
+                            let in_opt_group = opt_groups.iter().any(|(o, c)| *o < k && k < *c);
+                            if sq > 0 || optional || in_opt_group {
                                 via.push(t.to_string());
                             } else {
                                 direct.push(t.to_string());
@@ -278,6 +300,9 @@ pub fn features(s: &str) -> Value {
         "unit_like": unit_like,
         "eq_or_list": eq_or_list,
         "never_type_written": never_type_written(s, &toks),
+        "loop_kw": has("while") || has("for"),
+        "const_kw": has("const"),
+        "div_or_mod": toks.iter().any(|t| matches!(text(t), "/" | "%" | "/=" | "%=")),
     })
 }
 
@@ -292,7 +317,13 @@ pub fn may_die(s: &str) -> bool {
         }
         let g = type_graph(s, &toks);
         let names: Vec<&str> = g.iter().map(|x| x.0.as_str()).collect();
-        return g.iter().any(|(_, d, v)| d.iter().chain(v).any(|x| names.contains(&x.as_str())));
+        if g.iter().any(|(_, d, v)| d.iter().chain(v).any(|x| names.contains(&x.as_str()))) {
+            return true;
+        }
+    }
+    // constant initialisers are evaluated while compiling
+    if s.contains("const ") && (s.contains('/') || s.contains('%')) {
+        return true;
     }
     false
 }
@@ -301,7 +332,9 @@ fn is_stack_death(class: &str) -> bool {
     class == "signal:SIGABRT" || class == "signal:SIGSEGV"
 }
 
-pub const MATCHERS: [&str; 12] = [
+pub const MATCHERS: [&str; 14] = [
+    "loop_with_diverging_body",
+    "const_division_by_zero_at_compile_time",
     "module_ident_span_outside_file",
     "labels_in_two_files_rendered_against_one",
     "never_type_annotation",
@@ -391,6 +424,21 @@ pub fn matches_parts(matcher: &str, class: &str, c: &Value) -> bool {
                 || class.starts_with("panic:src/mir/lower.rs:"))
                 && msg.starts_with("Internal compiler error")
                 && on("never_type_written")
+        }
+        // N11: a loop whose body diverges is taken to diverge itself
+        "loop_with_diverging_body" => {
+            ((class.starts_with("panic:src/codegen/mod.rs:")
+                && (msg.starts_with("Internal compiler error: did not find Var")
+                    || msg.starts_with("called `Result::unwrap()` on an `Err` value: Compilation(Verifier")))
+                || (class.starts_with("panic:src/lir/lower.rs:")
+                    && msg.starts_with("called `Option::unwrap()` on a `None` value")))
+                && on("loop_kw")
+                && on("diverging_kw")
+                && !on("never_type_written")
+        }
+        // N12: constant initialisers run while compiling; integer division traps (C10) kill the compiling process
+        "const_division_by_zero_at_compile_time" => {
+            (class == "signal:SIGILL" || class == "signal:SIGFPE") && on("const_kw") && on("div_or_mod")
         }
         // N5
         "eq_on_zero_sized_field" => {
